@@ -22,7 +22,8 @@ def judge(o, R, F, tol=TOL, allow_negcycle=False, propagate=False):
     cls = input_class(F, propagate)
     if o["kind"] == "ok":
         if R.status == "inconsistent":
-            return ("answered-despite-inconsistent-evidence", "reference P(evidence)=0 but problog answered %s" % describe(o))
+            return ("answered-despite-inconsistent-evidence" + ("" if cls in ("clean", "contra") else "|" + cls),
+                    "reference P(evidence)=0 but problog answered %s" % describe(o))
         d = compare_probs(o["result"], R.probs, tol)
         if d is not None:
             return (d[0] if cls in ("clean", "contra") else "%s|%s" % (d[0], cls), d[1])
